@@ -22,7 +22,7 @@ def cases(tier, seed):
     out = []
     sets = SETTINGS[:2] if tier == "quick" else SETTINGS
     for p in base:
-        for i, st in enumerate(sets):
+        for i, st in enumerate(sets if p.get("ctx") in ("def", "pair_struct", "pair_ext") or tier == "quick" else sets[:2]):
             q = dict(p)
             q["id"] = "%s#s%d" % (p["id"], i)
             q["settings"] = st
